@@ -85,6 +85,9 @@ def floors(tier):
         "c4_issued_checked": 100,
         "c5_packets_ack_checked": 2000,
         "c6_replacement_checked": 100,
+        "ops_while_cwnd_blocked": 50,
+        "c2_retire_queued_while_cwnd_blocked": 20,
+        "c6_new_cid_queued_while_cwnd_blocked": 5,
     }
 
 
@@ -236,6 +239,10 @@ PROFILES = {
              "ping": 1, "ping_all": 0, "ping_retired": 0, "ack": 5, "timer": 1, "settle": 1},
     "retire": {"ncid_new": 2, "ncid_pair_desc": 0, "ncid_repeat": 1, "retire": 14, "change": 2, "drain": 0, "switch": 6,
                "ping": 5, "ping_all": 2, "ping_retired": 2, "ack": 6, "timer": 2, "settle": 1},
+    # E has a bulk upload in flight and P withholds the ACKs for the data packets: E is cwnd-blocked when
+    # the retirement / replacement becomes pending (see op_upload)
+    "blocked": {"ncid_new": 0, "ncid_pair_desc": 0, "ncid_repeat": 0, "retire": 0, "change": 0, "drain": 0, "switch": 0,
+                "ping": 1, "ping_all": 0, "ping_retired": 0, "ack": 2, "timer": 1, "settle": 3, "blocked_op": 16},
     "loss": {"ncid_new": 8, "ncid_pair_desc": 2, "ncid_repeat": 3, "retire": 6, "change": 10, "drain": 1, "switch": 3,
              "ping": 2, "ping_all": 0, "ping_retired": 0, "ack": 12, "timer": 5, "settle": 3},
 }
@@ -283,6 +290,11 @@ class Hist:
         self.last_dcid_seq = None
         self.violated = False
         self.reported_late = set()
+        # bulk upload / cwnd blocking
+        self.block_mode = False  # True: P does not acknowledge E packets that carry STREAM data
+        self.data_withheld = set()  # released (acknowledged) in the next fair phase
+        self.stream_id = None
+        self.uploaded = 0
 
     # -------------------------------------------------------------- reporting
     def case(self):
@@ -357,6 +369,9 @@ class Hist:
                 if seq in self.retire_carriers and any(p < v.pn for p in self.retire_carriers[seq]):
                     self.res.count("obs_dcid_retired_by_E_itself_used_again")
             carrier = False
+            if self.block_mode and "STREAM" in names:
+                self.data_withheld.add(v.pn)
+                self.res.count("data_packets_ack_withheld")
             for f in v.frames:
                 n = f["name"]
                 if n == "ACK":
@@ -424,7 +439,7 @@ class Hist:
     def ack_payload(self):
         from .. import frames as F
 
-        pns = sorted(self.e_pns - self.withheld)
+        pns = sorted(self.e_pns - self.withheld - self.data_withheld)
         if not pns:
             return b""
         ranges = []
@@ -477,7 +492,16 @@ class Hist:
     def do(self, op):
         self.ops.append(list(op))
         kind = op[0]
+        blocked = kind != "upload" and self._blocked_now()
         getattr(self, "op_" + kind)(*op[1:])
+        if blocked and self.closed is None:
+            # evidence that the blocking did its job: frames are pending and could not be written
+            self.res.count("ops_while_cwnd_blocked")
+            self.res.count("ops_while_cwnd_blocked:" + kind)
+            if self.E._retire_connection_ids:
+                self.res.count("c2_retire_queued_while_cwnd_blocked")
+            if any(not c.was_sent for c in self.E._host_cids):
+                self.res.count("c6_new_cid_queued_while_cwnd_blocked")
         if self.closed is None:
             self.post_step()
 
@@ -641,6 +665,35 @@ class Hist:
             self.send(p, must_ack=False)
         self.trace.append("ack")
 
+    def op_upload(self, nbytes):
+        """E starts (or continues) a bulk upload; from now on P leaves every E packet that carries STREAM
+        data unacknowledged, and E is driven (pacing timers only, never the PTO) until its congestion
+        window is exhausted.  The next op therefore finds E unable to write in-flight frames."""
+        if self.stream_id is None:
+            self.stream_id = self.api(self.pup.call, "get_next_available_stream_id")
+        self.block_mode = True
+        if nbytes:
+            self.api(self.pup.call, "send_stream_data", self.stream_id, bytes(nbytes), False)
+            self.uploaded += nbytes
+        for _ in range(400):
+            views = self.api(self.pup.transmit)
+            self.on_views(views)
+            if self.closed is not None or self.pup.terminated is not None:
+                break
+            later = self.api(self.pup.fire_timer, 0.004)  # pacing gaps; the PTO lies >= 1 PTO after the last send
+            if later:
+                self.on_views(later)
+            if not views and not later:
+                break
+        loss = self.E._loss
+        room = loss.congestion_window - loss.bytes_in_flight
+        self.trace.append("upload:" + ("blocked" if room < 64 else "open"))
+        self.res.count("uploads_started" if nbytes else "uploads_reblocked")
+
+    def _blocked_now(self):
+        loss = self.E._loss
+        return self.block_mode and loss.congestion_window - loss.bytes_in_flight < 48 and not self.E._probe_pending
+
     def op_timer(self, n):
         for _ in range(n):
             if self.closed is not None or self.pup.terminated is not None:
@@ -679,6 +732,8 @@ class Hist:
         pto = self.pto()
         t0 = self.pup.now
         saved, self.wh_enabled = self.wh_enabled, False
+        self.block_mode = False  # fair phase: the withheld data packets are acknowledged as well
+        self.data_withheld.clear()
         had_lost = bool(self.outstanding()["lost"])
         rounds = 0
         out = None
@@ -824,6 +879,29 @@ class Hist:
             if not self.e_retired:
                 return [["ping", to]]
             return [["ping_retired", rng.choice(sorted(self.e_retired))]]
+        if kind == "blocked_op":
+            ops = [["upload", 400000 if self.uploaded < 800000 else 0]]
+            c = rng.random()
+            others = [x for x in valid if x != self.p_default]
+            if c < 0.3:
+                ops += [["change"]] * rng.choice([1, 1, 2])
+            elif c < 0.6:
+                seq = pmax + 1
+                ops.append(["ncid", seq, rng.choice([min(seq, cur + 1), seq, seq, max(0, seq - 1)]), 0, to])
+            elif c < 0.8 and others:
+                ops.append(["switch", rng.choice(others)])
+            else:
+                to_seq = self.p_default if to is None else to
+                cands = [x for x in valid if x != to_seq]
+                if cands:
+                    ops.append(["retire", rng.choice(cands), to])
+                else:
+                    ops.append(["change"])
+            if rng.random() < 0.25:
+                ops.append(["change"])
+            if rng.random() < 0.5:
+                ops.append(["settle"])
+            return ops
         if kind == "ack":
             return [["ack", rng.random() < 0.5]]
         if kind == "timer":
@@ -846,7 +924,7 @@ class Hist:
 
 
 def history_params(rng):
-    name = rng.choice(["balanced", "balanced", "ncid", "ncid", "retire", "loss"])
+    name = rng.choice(["balanced", "balanced", "ncid", "ncid", "retire", "loss", "blocked", "blocked"])
     prof = {
         "name": name,
         "w": PROFILES[name],
@@ -854,7 +932,7 @@ def history_params(rng):
         "p_exceed": rng.choice([0.0, 0.05, 0.05, 0.3]),
         "p_other_dcid": rng.choice([0.0, 0.1, 0.4]),
     }
-    steps = rng.choice([5, 10, 20, 40, 80, 150])
+    steps = rng.choice([5, 10, 20, 40, 80, 150]) if name != "blocked" else rng.choice([5, 10, 20, 40])
     p_wh = rng.choice([0.0, 0.0, 0.3, 0.6, 1.0]) if name != "loss" else rng.choice([0.3, 0.6, 1.0])
     wh = [1 if rng.random() < p_wh else 0 for _ in range(rng.choice([4, 12, 30]))]
     return prof, steps, wh
